@@ -185,6 +185,22 @@ func (env *SpecEnv) lookupType(e ast.Expr) types.Type {
 		}
 	case *ast.SelectorExpr:
 		if id, ok := x.X.(*ast.Ident); ok && env.pkg != nil {
+			if id.Name == env.pkg.Name() {
+				if obj := env.pkg.Scope().Lookup(x.Sel.Name); obj != nil {
+					if tn, ok := obj.(*types.TypeName); ok {
+						return tn.Type()
+					}
+				}
+			}
+			if env.vc != nil && env.vc.prog != nil {
+				if tp := env.vc.prog.typesPkgByName(id.Name); tp != nil {
+					if obj := tp.Scope().Lookup(x.Sel.Name); obj != nil {
+						if tn, ok := obj.(*types.TypeName); ok {
+							return tn.Type()
+						}
+					}
+				}
+			}
 			for _, imp := range env.pkg.Imports() {
 				if imp.Name() == id.Name {
 					if obj := imp.Scope().Lookup(x.Sel.Name); obj != nil {
@@ -830,13 +846,8 @@ func (env *SpecEnv) index(x *ast.IndexExpr) Val {
 	iv := env.tr(x.Index)
 	env.math = sv
 	if av, ok := base.(*AV); ok {
-		at := av.T.Underlying().(*types.Array)
 		i := env.idxTerm(iv)
-		out := &FV{T: at.Elem()}
-		for _, l := range av.L {
-			out.L = append(out.L, mkSelect(l, i))
-		}
-		return env.widen(out)
+		return env.widen(enc.elemOfAV(av, i))
 	}
 	et, b, off, _, _, isStr := env.asSlice(base)
 	i := enc.add(off, env.idxTerm(iv))
@@ -975,6 +986,47 @@ func (env *SpecEnv) call(x *ast.CallExpr) Val {
 			return ch.tr(x.Args[1])
 		case "forall", "exists":
 			return env.quant(id.Name, x)
+		case "forallm", "existsm":
+			// forallm(v, body): v ranges over all mathematical integers
+			vid, ok := x.Args[0].(*ast.Ident)
+			if !ok || len(x.Args) != 2 {
+				env.errf("%s(v, body) expects an identifier and a body", id.Name)
+			}
+			ms := enc.scalarSort(mathInt)
+			bound := fmt.Sprintf("%s?%d", vid.Name, env.vc.sc.n)
+			env.vc.sc.n++
+			ch := env.child()
+			ch.vars[vid.Name] = scalar(mathInt, Term{bound, ms})
+			body := ch.Bool(x.Args[1])
+			q := "forall"
+			if id.Name == "existsm" {
+				q = "exists"
+			}
+			return scalar(types.Typ[types.Bool], Term{fmt.Sprintf("(%s ((%s %s)) %s)", q, bound, ms, body.S), SBool})
+		case "ediv", "emod":
+			ch := env.child()
+			ch.math = true
+			a := ch.coerce(ch.tr(x.Args[0]), mathInt).(*FV)
+			b := ch.coerce(ch.tr(x.Args[1]), mathInt).(*FV)
+			if enc.Mode != ModeInt {
+				env.errf("%s is only available in mode int", id.Name)
+			}
+			op := "div"
+			if id.Name == "emod" {
+				op = "mod"
+			}
+			return scalar(mathInt, app(SInt, op, a.L[0], b.L[0]))
+		case "pow2":
+			ch := env.child()
+			ch.math = true
+			a := ch.coerce(ch.tr(x.Args[0]), mathInt).(*FV)
+			if enc.Mode != ModeInt {
+				env.errf("pow2 is only available in mode int")
+			}
+			if c, ok := termConst(a.L[0]); ok && c.Sign() >= 0 && c.BitLen() < 12 {
+				return scalar(mathInt, intLit(new(big.Int).Lsh(big.NewInt(1), uint(c.Int64()))))
+			}
+			return scalar(mathInt, app(SInt, "pow2", a.L[0]))
 		case "implies":
 			return scalar(types.Typ[types.Bool], mkImplies(env.Bool(x.Args[0]), env.Bool(x.Args[1])))
 		case "iff":
@@ -1287,6 +1339,18 @@ func (env *SpecEnv) opaqueCall(sf *SpecFunc, args []Val, rt types.Type) Val {
 		var appArgs []string
 		for i, p := range sf.Params {
 			pt := env.lookupType(p.Type)
+			if ls, isArr := enc.arrayLeafSorts(pt); isArr {
+				av := &AV{T: pt}
+				for j, srt := range ls {
+					av.L = append(av.L, Term{fmt.Sprintf("p?%d_%d", i, j), srt})
+				}
+				for _, t := range av.L {
+					binders = append(binders, fmt.Sprintf("(%s %s)", t.S, t.Sort))
+					appArgs = append(appArgs, t.S)
+				}
+				ch.vars[p.Name] = av
+				continue
+			}
 			fv := &FV{T: pt}
 			if isMath(pt) {
 				fv.L = []Term{{fmt.Sprintf("p?%d_0", i), enc.scalarSort(pt)}}
@@ -1326,7 +1390,7 @@ func (env *SpecEnv) opaqueCall(sf *SpecFunc, args []Val, rt types.Type) Val {
 		}
 		var ps []string
 		for _, a := range args {
-			for _, t := range a.(*FV).L {
+			for _, t := range valLeaves(a) {
 				ps = append(ps, string(t.Sort))
 			}
 		}
@@ -1345,14 +1409,25 @@ func (env *SpecEnv) opaqueCall(sf *SpecFunc, args []Val, rt types.Type) Val {
 		ts = append(ts, vc.heapGet(env.cur, k, info.sorts[i]))
 	}
 	for _, a := range args {
-		fv, ok := a.(*FV)
-		if !ok {
-			env.errf("ospec %s: aggregate argument", sf.Name)
+		ls := valLeaves(a)
+		if ls == nil {
+			env.errf("ospec %s: unsupported argument shape", sf.Name)
 		}
-		ts = append(ts, fv.L...)
+		ts = append(ts, ls...)
 	}
 	if len(ts) == 0 {
 		return env.widen(scalar(rt, Term{"(" + info.name + ")", rs}))
 	}
 	return env.widen(scalar(rt, app(rs, info.name, ts...)))
+}
+
+
+func valLeaves(v Val) []Term {
+	switch x := v.(type) {
+	case *FV:
+		return x.L
+	case *AV:
+		return x.L
+	}
+	return nil
 }
